@@ -226,7 +226,7 @@ func (n genericNode) child(name string) *genericNode {
 }
 
 func startScriptedServer(conns []connScript) (*scriptedServer, error) {
-	ln, err := net.Listen("tcp", "127.0.0.1:0")
+	ln, err := listenLoopback()
 	if err != nil {
 		return nil, err
 	}
